@@ -69,6 +69,18 @@ class InvVolAlpha(object):
         return w
 
 
+class CycleAlpha(object):
+    """Harness alpha whose weights change from rebalance to rebalance and come back: vectors[i % len] at call i."""
+
+    def __init__(self, vectors):
+        self.vectors, self.i = [dict(v) for v in vectors], 0
+
+    def __call__(self, dt):
+        w = dict(self.vectors[self.i % len(self.vectors)])
+        self.i += 1
+        return w
+
+
 def build_universe(q, ucfg):
     if ucfg['kind'] == 'static':
         return q.StaticUniverse(list(ucfg['assets']))
@@ -112,6 +124,8 @@ def run_session(cfg, csv_path, symbols, data_source=None, probe_signals=False, h
         alpha = shared['alpha_inner']          # the very object an earlier session used
     elif acfg['kind'] == 'fixed':
         alpha = q.FixedSignalsAlphaModel(dict(acfg['weights']))
+    elif acfg['kind'] == 'cycle':
+        alpha = CycleAlpha(acfg['vectors'])
     elif acfg['kind'] == 'single':
         alpha = q.SingleSignalAlphaModel(universe, signal=acfg['signal'])
     elif acfg['kind'] == 'topn':
